@@ -14,17 +14,18 @@ Open Scope nat_scope.
 (** a one-hot grid is the image of one sequence only *)
 Lemma onehot_unique fb s q q' : onehot fb s q -> onehot fb s q' -> q = q'.
 Proof.
-  intros (L & R & C & B & I) (L' & R' & C' & B' & I').
+  intros (L & R & C & B & I & N) (L' & R' & C' & B' & I' & N').
   apply (nth_ext q q' [] []); [congruence|]. intros f Hf. rewrite L in Hf.
   apply (nth_ext (nth f q []) (nth f q' []) None None).
   - rewrite (R f Hf), (R' f Hf). reflexivity.
   - intros t Ht. rewrite (R f Hf) in Ht.
     change (get_cell q f t = get_cell q' f t).
-    destruct (isact fb f) eqn:Ea.
-    + destruct (C t f Ht Ea) as (i & Hi & Ei). destruct (C' t f Ht Ea) as (i' & Hi' & Ei').
-      pose proof (B t f i Ht Ea Hi) as E1. pose proof (B' t f i Ht Ea Hi) as E2.
+    destruct (isact fb f) eqn:Ea; [destruct (lappl fb f t) eqn:Eap|].
+    + destruct (C t f Ht Ea Eap) as (i & Hi & Ei). destruct (C' t f Ht Ea Eap) as (i' & Hi' & Ei').
+      pose proof (B t f i Ht Ea Eap Hi) as E1. pose proof (B' t f i Ht Ea Eap Hi) as E2.
       rewrite Ei in E1. rewrite Ei' in E2. rewrite E1 in E2. rewrite !is_level_some, Nat.eqb_refl in E2.
       symmetry in E2. apply Nat.eqb_eq in E2. congruence.
+    + now rewrite (N t f Ht Ea Eap), (N' t f Ht Ea Eap).
     + now rewrite (I t f Ht Hf Ea), (I' t f Ht Hf Ea).
 Qed.
 
